@@ -538,13 +538,13 @@ def c14(ctx):
     ctx.replay([r['out']], ['C14.'])
     # long random histories with interleaved observations: after hashing / comparing the object at arbitrary points of its
     # history it must still be ==, Equal and hash-identical to an object rebuilt from its entries
-    for i in range(1 if ctx.quick else 6):
+    for i in range(1 if ctx.quick else 10):
         trace, s = ctx.record('record-obj', f'objobs{i}.ndjson', ['--n', 500 if ctx.quick else 3000, '--keys', 12, '--resets', 5, '--observe', 2],
                               seed_offset=i * 104729)
         ctx.validate(f'objobs{i}', 'TraceObject', trace, 'C14.trace',
                      'an object observed (==, cmp, hash) in the middle of its history differs from an object rebuilt from the same entries',
                      invariants=('Consistent', 'Result'), classify=lambda ev: 'C14.trace' if ev.get('ev') == 'obs' else None)
-    domains, size = (4, 36) if ctx.quick else (11, 90)
+    domains, size = (4, 36) if ctx.quick else (16, 110)
     trace, s = ctx.record('record-order', 'order.ndjson', ['--domains', domains, '--size', size])
     v = ctx.validate('order', 'TraceOrder', trace, 'C14.laws',
                      'recorded ==/cmp/partial_cmp/hash matrices violate the laws (structural equality, total order consistent with equality, hash respects equality)')
@@ -813,9 +813,10 @@ def de_model(ctx):
 def c16(ctx):
     r = serde_model(ctx)
     ctx.replay([r['out'], de_model(ctx)['out']], ['C16.'])
-    trace, s = ctx.record('record-serde', 'serde16.ndjson', ['--n', 140 if ctx.quick else 3000, '--events', 'typed'])
-    reasons_trace(ctx, 'serde', 'TraceSerde', trace, lambda ev, why: 'C16.' + why,
-                  lambda ev, why: f'typed datum ({ev.get("type")}): {why}', rec_summary=s)
+    for i in range(1 if ctx.quick else 4):
+        trace, s = ctx.record('record-serde', f'serde16_{i}.ndjson', ['--n', 140 if ctx.quick else 3000, '--events', 'typed'], seed_offset=i * 7919)
+        reasons_trace(ctx, 'serde' if i == 0 else f'serde_{i}', 'TraceSerde', trace, lambda ev, why: 'C16.' + why,
+                      lambda ev, why: f'typed datum ({ev.get("type")}): {why}', rec_summary=s)
     ctx.extra['rule'] = ('S->I: every small data-model term (5080) through json_syntax::Serializer (= specified encoding) and serde_json (same shape); '
                          'I->S: instances of a derive family (structs, 4 variant kinds, options, tuples, sequences, maps keyed by strings / integers / '
                          'chars / unit variants / newtype keys, 8-64 bit integers at their bounds, random-bit f32/f64, arbitrary Unicode): recorded term, '
@@ -825,15 +826,17 @@ def c16(ctx):
 def c17(ctx):
     r = serde_model(ctx)
     ctx.replay([r['out'], de_model(ctx)['out']], ['C17.'])
-    trace, s = ctx.record('record-serde', 'serde17.ndjson', ['--n', 150 if ctx.quick else 3000, '--events', 'value_ser,value_de,text_de'])
-    reasons_trace(ctx, 'serde', 'TraceSerde', trace, lambda ev, why: 'C17.' + why,
-                  lambda ev, why: f'Value through its own Serialize/Deserialize ({ev["ev"]}): {why}', rec_summary=s)
+    for i in range(1 if ctx.quick else 3):
+        trace, s = ctx.record('record-serde', f'serde17_{i}.ndjson', ['--n', 150 if ctx.quick else 3000, '--events', 'value_ser,value_de,text_de'], seed_offset=i * 7919)
+        reasons_trace(ctx, 'serde' if i == 0 else f'serde_{i}', 'TraceSerde', trace, lambda ev, why: 'C17.' + why,
+                      lambda ev, why: f'Value through its own Serialize/Deserialize ({ev["ev"]}): {why}', rec_summary=s)
 
 
 def c18(ctx):
-    trace, s = ctx.record('record-serde', 'serde18.ndjson', ['--n', 200 if ctx.quick else 5000, '--events', 'sj_rt,js_rt'])
-    reasons_trace(ctx, 'serde', 'TraceSerde', trace, lambda ev, why: 'C18.' + why,
-                  lambda ev, why: f'conversion with serde_json::Value ({ev["ev"]}): {why}', rec_summary=s)
+    for i in range(1 if ctx.quick else 3):
+        trace, s = ctx.record('record-serde', f'serde18_{i}.ndjson', ['--n', 200 if ctx.quick else 5000, '--events', 'sj_rt,js_rt'], seed_offset=i * 7919)
+        reasons_trace(ctx, 'serde' if i == 0 else f'serde_{i}', 'TraceSerde', trace, lambda ev, why: 'C18.' + why,
+                      lambda ev, why: f'conversion with serde_json::Value ({ev["ev"]}): {why}', rec_summary=s)
     # the same recorder in an UNOPTIMISED build of the crate ("neither direction panics": arithmetic overflow is only checked there)
     trace, s = ctx.record('record-serde', 'serde18_debug.ndjson', ['--n', 120 if ctx.quick else 2000, '--events', 'sj_rt,js_rt'], seed_offset=17, debug=True)
     reasons_trace(ctx, 'serde_debug', 'TraceSerde', trace, lambda ev, why: 'C18.' + why,
@@ -846,7 +849,7 @@ def c19(ctx):
     consts = {'Docs': 'QuickDocs' if ctx.quick else 'ThoroughDocs'}
     r = ctx.mc(f'macro_{ctx.tier}', 'MC_Macro', consts, {}, ['Expands', 'MacroIsParse', 'Dump'], spec='MSpec')
     ctx.replay([r['out']], ['C19.'])
-    trace, s = ctx.record('record-macro', 'macro.ndjson', ['--n', 150 if ctx.quick else 1500])
+    trace, s = ctx.record('record-macro', 'macro.ndjson', ['--n', 150 if ctx.quick else 4000])
     for ce in s.get('compile_errors', []):
         ctx.mismatches.append(('C19.compile', ce))
     if s.get('events', 0) > 0:
